@@ -66,6 +66,53 @@ def run(tier, replay=None):
             m[side].setdefault("files", [])
             m[side].setdefault("nodes", [])
             m[side].setdefault("errors", [])
+    # as-built binding: the statement loop of the parser, token by token, on every full file of this run
+    pc = [{"id": i + 1, "mode": "parse", "files": ff, "base": "main.s"} for i, (m, ff, ft) in enumerate(items)]
+    tp2, pevs = run_harness_par(rvh, pc, wd, "parse", shards=6)
+    ptrace, chunks, cur = [], [], []
+    nparse = 0
+    for i, e in enumerate(pevs):
+        if e["ev"] != "parse":
+            continue
+        nparse += 1
+        evs_i = [{"ev": "program", "prog": i + 1}] + [dict(x, prog=i + 1) for x in e["events"]]
+        if len(cur) + len(evs_i) > 40000:
+            chunks.append(cur)
+            cur = []
+        cur += evs_i
+    if cur:
+        chunks.append(cur)
+    pv, pdrift = [], []
+    from concurrent.futures import ThreadPoolExecutor
+
+    def one(k):
+        for j, x in enumerate(chunks[k]):
+            x["gid"] = j + 1
+        path = os.path.join(wd, f"parse.chunk.{k}.ndjson")
+        write_ndjson(path, chunks[k])
+        r = tlc_validate("Trace_ParseLoop", path, heap="6g", workdir=os.path.join(WORK, "tlc", f"Trace_ParseLoop.{k}"))
+        os.remove(path)
+        return r
+    with ThreadPoolExecutor(max_workers=4) as ex:
+        presults = list(ex.map(one, range(len(chunks))))
+    nevents = sum(len(c) for c in chunks)
+    for vv, acc, res in presults:
+        if not acc:
+            raise ToolError("Trace_ParseLoop: trace not consumed")
+        out.add_tlc(res)
+        for x in vv:
+            m, ff, ft = items[x["prog"] - 1]
+            x["id"] = x["prog"]
+            x["meta"], x["files_full"], x["files_twin"] = m, ff, ft
+        pv += vv
+        pdrift += res.tagged("DRIFT")
+    for d in pdrift[:20]:
+        out.drift.append({"key": d["key"], "files": items[d["prog"] - 1][1]})
+    if pdrift:
+        dk = {}
+        for d in pdrift:
+            dk[d["key"]] = dk.get(d["key"], 0) + 1
+        out.notes.append("SPEC-DRIFT (the statement loop no longer follows Trace_ParseLoop.tla; not a violation): " + json.dumps(dk))
     v, ress = validate_chunks("Trace_Lines", merged, wd, "lines.merged", chunk=6000, heap="8g")
     for res in ress:
         out.add_tlc(res)
@@ -73,11 +120,14 @@ def run(tier, replay=None):
         m, ff, ft = items[x["id"] - 1]
         x["meta"], x["files_full"], x["files_twin"] = m, ff, ft
     out.add_verdicts(v)
+    out.add_verdicts(pv)
     out.cov["traces_validated_against_impl"] = len(merged)
+    out.cov["parse_loop_step_traces"] = {"files": nparse, "events": nevents, "drift": len(pdrift)}
     out.sample({"text": cases[0]["text"], "fault": cases[0]["fault"], "ending": cases[0]["ending"]})
     out.sample({"text": cases[-1]["text"], "fault": cases[-1]["fault"], "ending": cases[-1]["ending"]})
     out.sample({"corpus": True, "fault": items[-1][0]["fault"], "text": items[-1][1]["main.s"][:200]})
     out.assumptions += [
+        "step traces of the statement loop (rva_verif hooks) are judged token by token by Trace_ParseLoop: a statement lives on one line, an error consumes at most the rest of its own line, a lexer is dropped only when nothing is pending",
         "a line is blank if it holds only spaces, tabs, commas or CR; comment-only if its first other character is '#'",
         "an error 'located on' a line = its raw range lies on that line (positions are judged by C09)",
         "containment compares (kind, mnemonic, operands, label, csr, directive, data values) of all nodes of the other lines",
